@@ -5,6 +5,7 @@ import (
 	"errors"
 	"io"
 
+	"google.golang.org/grpc"
 	"google.golang.org/grpc/metadata"
 	"google.golang.org/protobuf/types/known/wrapperspb"
 	spb "google.golang.org/genproto/googleapis/rpc/status"
@@ -315,4 +316,148 @@ func verifK_FinishClient() {
 	verifAssert(len(got) <= 1, "C01.k-no-duplicate-message")
 	_, still := c.streams[st.streamID]
 	verifAssert(!still, "C14.k-finished-rpc-leaves-table")
+}
+
+// K-FIN-SRV (C01 C02 C04 C07 C13 C14 C15): a streaming handler (Recv, Send,
+// return) || the receive loop delivering a request, then a half-close or a
+// cancel frame || optionally the deadline firing.
+func verifK_FinishServer() {
+	car := &vSrvCarrier{ctx: context.Background(), endErr: io.EOF}
+	svr := &tunnelServer{stream: car, streams: map[int64]*tunnelServerStream{}, lastSeen: 9, tunnelOpts: &tunnelOpts{}}
+	ctx, cancel := context.WithCancel(context.Background())
+	st := &tunnelServerStream{ctx: ctx, cancel: cancel, svr: svr, streamID: 9, method: "a/s", stream: car,
+		isClientStream: true, isServerStream: true}
+	st.sender = newSender(ctx, 100, func(data []byte, totalSize uint32, first bool) error {
+		return car.Send(&tunnelpb.ServerToClient{StreamId: 9, Frame: &tunnelpb.ServerToClient_ResponseMessage{
+			ResponseMessage: &tunnelpb.MessageData{Size: totalSize, Data: data}}})
+	})
+	st.receiver = newReceiver[tunnelpb.ClientToServerFrame](func(f tunnelpb.ClientToServerFrame) uint {
+		if m, ok := f.(*tunnelpb.ClientToServer_RequestMessage); ok {
+			return uint(len(m.RequestMessage.Data))
+		}
+		return 0
+	}, func(uint32) {}, initialWindowSize)
+	svr.streams[9] = st
+	ending := verifChoice("ending", 3) // 0 half-close, 1 cancel frame, 2 deadline
+	var recvErr, sendErr error
+	gotReq := 0
+	returned := false
+	desc := &grpc.StreamDesc{StreamName: "s", ClientStreams: true, ServerStreams: true, Handler: func(srv any, ss grpc.ServerStream) error {
+		for {
+			if e := ss.RecvMsg(&wrapperspb.BytesValue{}); e != nil {
+				recvErr = e
+				break
+			}
+			gotReq++
+		}
+		sendErr = ss.SendMsg(&wrapperspb.BytesValue{Value: []byte{1}})
+		returned = true
+		return nil
+	}}
+	verifGo("handler", func() { st.serveStream(desc, &vSvcImpl{"a"}) })
+	verifGo("recv-loop", func() {
+		w := verifWire([]byte{5})
+		st.acceptClientFrame(&tunnelpb.ClientToServer_RequestMessage{RequestMessage: &tunnelpb.MessageData{Size: uint32(len(w)), Data: w}})
+		switch ending {
+		case 0:
+			st.acceptClientFrame(&tunnelpb.ClientToServer_HalfClose{})
+		case 1:
+			st.acceptClientFrame(&tunnelpb.ClientToServer_Cancel{})
+		}
+	})
+	if ending == 2 {
+		verifGo("deadline", func() { st.cancel() })
+	}
+	verifDrain()
+	verifAssert(returned, "C04+C07.k-handler-always-returns")
+	if !returned {
+		return
+	}
+	if ending == 0 {
+		verifCover("k-srv-clean")
+		verifAssert(recvErr == io.EOF && gotReq == 1, "C01.k-handler-sees-all-requests-then-eof")
+		verifAssert(sendErr == nil, "C01.k-response-accepted")
+	} else {
+		verifAssert(recvErr != nil, "C01+C07.k-terminated-recv-is-an-error")
+		verifAssert(gotReq <= 1, "C01.k-no-duplicate-request")
+	}
+	nclose, nhdr, nmsg := 0, 0, 0
+	for i, f := range car.sent {
+		switch f.Frame.(type) {
+		case *tunnelpb.ServerToClient_CloseStream:
+			nclose++
+			if ending == 0 {
+				verifAssert(i == len(car.sent)-1, "C13.k-close-is-last")
+			}
+		case *tunnelpb.ServerToClient_ResponseHeaders:
+			nhdr++
+			if ending == 0 {
+				verifAssert(i == 0, "C02+C13.k-headers-first")
+			}
+		case *tunnelpb.ServerToClient_ResponseMessage:
+			nmsg++
+		}
+	}
+	verifAssert(nclose == 1, "C13.k-exactly-one-close-frame")
+	verifAssert(nhdr == 1, "C13.k-headers-exactly-once")
+	_, still := svr.streams[9]
+	verifAssert(!still, "C14.k-stream-leaves-table")
+	verifAssert(ctx.Err() != nil, "C04+C14.k-handler-context-cancelled")
+	verifAssert(!verifMutexHeld(&st.writeMu) && !verifMutexHeld(&st.readMu), "C15.k-stream-locks-released")
+}
+
+// K-CLOSE-CLI (C04 C14 C15): Close() of a channel || a caller blocked in
+// RecvMsg || a caller blocked in SendMsg on a zero window || a late starter.
+func verifK_CloseChannel() {
+	car := vNewCliCarrier(context.Background())
+	c := vNewCliChannel(car, 0, false)
+	c.settings.InitialWindowSize = 0 // the peer grants nothing: senders park
+	s1, err1 := c.newStream(context.Background(), true, true, "svc/a")
+	s2, err2 := c.newStream(context.Background(), true, true, "svc/b")
+	verifAssume(err1 == nil && err2 == nil)
+	var rerr, serr, lerr error
+	rdone, sdone, ldone := false, false, false
+	var late *tunnelClientStream
+	// two thread sets (the product of both is outside the bound)
+	scenario := verifChoice("scenario", 2)
+	if scenario == 0 {
+		verifGo("reader", func() {
+			rerr = s1.RecvMsg(&wrapperspb.BytesValue{})
+			rdone = true
+		})
+		verifGo("sender", func() {
+			serr = s2.SendMsg(&wrapperspb.BytesValue{Value: []byte{1, 2, 3}})
+			sdone = true
+		})
+		ldone, lerr = true, errors.New("n/a")
+	} else {
+		verifGo("late-starter", func() {
+			late, lerr = c.newStream(context.Background(), true, true, "svc/c")
+			ldone = true
+		})
+		rdone, sdone = true, true
+		rerr, serr = errors.New("n/a"), errors.New("n/a")
+	}
+	cause := errors.New("carrier broke")
+	verifGo("closer", func() { c.close(cause) })
+	verifDrain()
+	verifAssert(rdone && sdone && ldone, "C04.k-every-blocked-call-returns-after-close")
+	if rdone {
+		verifAssert(rerr != nil && rerr != io.EOF, "C04.k-blocked-recv-non-ok")
+	}
+	if sdone {
+		verifAssert(serr != nil, "C04.k-blocked-send-non-ok")
+	}
+	if ldone {
+		if lerr == nil {
+			// it got in before the close: then the close ended it
+			verifCover("k-late-starter-won")
+			verifAssert(late.ctx.Err() != nil, "C04.k-rpc-started-before-close-is-cancelled")
+		} else {
+			verifCover("k-late-starter-refused")
+		}
+	}
+	verifAssert(c.Err() == cause && !vChanOpenRO(c.Done()), "C04.k-err-and-done")
+	verifAssert(len(c.streams) == 0, "C14.k-table-empty-after-close")
+	verifAssert(!verifMutexHeld(&c.mu) && !verifMutexHeld(&c.streamCreation), "C15.k-channel-locks-released")
 }
